@@ -27,11 +27,14 @@ pub struct Workload {
     pub fins: Vec<u8>,
     /// quick: number of sampled .shx crash states per .shp state; 0 = full cross product
     pub shx_samples: u16,
+    /// the shapes after the last mid-history finalize go through the consuming `write_shapes`
+    #[serde(default)]
+    pub bulk: bool,
 }
 
 pub fn workload(max_shapes: usize, shx_samples: u16) -> BoxedStrategy<Workload> {
-    (gen::ty13(), gen::profile_mix(), 0u8..12)
-        .prop_flat_map(move |(ty, p, big)| {
+    (gen::ty13(), gen::profile_mix(), 0u8..12, 0u8..4)
+        .prop_flat_map(move |(ty, p, big, bulk)| {
             let cfg = gen::GenCfg::new(p, true, 3, 5);
             // one workload in twelve carries shapes with 130-200 points in a part (block / threshold effects)
             let g = if big == 0 {
@@ -71,6 +74,7 @@ pub fn workload(max_shapes: usize, shx_samples: u16) -> BoxedStrategy<Workload> 
                             geoms,
                             fins,
                             shx_samples,
+                            bulk: bulk == 0,
                         }
                     })
             })
@@ -223,7 +227,10 @@ fn crash_k<K: Kind>(w: &Workload, ctx: &mut Ctx) -> Result<(), Fail> {
     {
         let mut wr = ShapeWriter::with_shx(shp.clone(), shx.clone());
         let mut i = 0;
-        for s in &st {
+        // bulk route: the steps up to the last finalize that still has a write after it are issued one by one, the
+        // remaining shapes are handed to the consuming write_shapes (which finalizes and drops the writer)
+        let single = if w.bulk { st.iter().rposition(|s| *s == Step::Write).map(|lw| st[..lw].iter().rposition(|s| *s == Step::Fin).map(|f| f + 1).unwrap_or(0)).unwrap_or(st.len()) } else { st.len() };
+        for s in &st[..single] {
             match s {
                 Step::Write => {
                     wr.write_shape(&shapes[i]).map_err(|e| Fail::new("write-error", err_str(&e)))?;
@@ -235,7 +242,12 @@ fn crash_k<K: Kind>(w: &Workload, ctx: &mut Ctx) -> Result<(), Fail> {
                 }
             }
         }
-        drop(wr);
+        if single < st.len() {
+            ctx.class("tail-through-write_shapes");
+            wr.write_shapes(shapes[i..].iter()).map_err(|e| Fail::new("write-error", format!("write_shapes: {}", err_str(&e))))?;
+        } else {
+            drop(wr);
+        }
         durable.push((shp.log_len(), n));
     }
     let shp_log = shp.log();
